@@ -18,7 +18,7 @@ MODES = ['compact', 'scatter', 'balanced', 'numa-balanced', 'none']
 # Findings of the pinned tree reproduced by this check (text for /verif/known_findings.txt is in
 # notes/C15.md; lines there with property=C15 are honoured as well).  A monitor message that
 # matches none of these signatures is a VIOLATION.
-LOCAL_KNOWN = []    # moved to /verif/known_findings.txt
+LOCAL_KNOWN = []     # every signature lives in /verif/known_findings.txt
 
 
 # ------------------------------------------------------------------------------ topologies
@@ -40,7 +40,7 @@ def topo_variants(tr):
     for G, C, U in [(2, 4, 2), (4, 2, 1)]:
         extra.append((f'numa:{G} core:{C} pu:{U}', 'np:' + '.'.join([str(U)] * (G * C))))
     for P, U in [(2, 4), (1, 3), (3, 2)]:
-        extra.append((f'pack:{P} pu:{U}', '/'.join(['.'.join(['1'] * U)] * P)))  # no core objects: PUs as cores
+        extra.append((f'pack:{P} pu:{U}', 'pc:' + '/'.join(['.'.join(['1'] * U)] * P)))  # no core objects: PUs as cores
     return out, extra
 
 
@@ -71,7 +71,7 @@ def asym_variants(rng, count):
 
 
 def model_shape(model):
-    body = model[3:] if model.startswith('np:') else model
+    body = model[3:] if model.startswith(('np:', 'pc:')) else model
     socks = [[int(x) for x in s.split('.')] for s in body.split('/')]
     cores = [u for s in socks for u in s]
     return socks, cores
@@ -106,7 +106,10 @@ def gen_cases(rng, synth, model, tr, tag, budget_div):
     i = 0
     for mask in masks:
         avail = npus if mask == 'all' else len(mask.split('.'))
-        for use in ((1, 0) if mask == 'all' else (1,)):
+        # C15t: use=0 with a strict mask = --pika:ignore-process-mask while a mask is set (one mask per
+        # topology): counts between |mask|+1 and #PUs must be accepted and may leave the mask
+        ign_strict = (mask != 'all' and mask == masks[-1])
+        for use in ((1, 0) if (mask == 'all' or ign_strict) else (1,)):
             av = avail if use else npus
             counts = list(range(1, av + 2))
             if tr != 'thorough' and len(counts) > 10:
@@ -114,10 +117,14 @@ def gen_cases(rng, synth, model, tr, tag, budget_div):
                 while len(pick) < 10:
                     pick.add(1 + rng.below(av + 1))
                 counts = sorted(pick)
+            # C15t: oversubscription well beyond the limit (every mode must reject; none must not bind)
+            counts = counts + [av + 2 + rng.below(3), 2 * av + 1]
             for n in counts:
                 for mode in MODES:
-                    if mode == 'none' and n > npus:
+                    if mode == 'none' and n > npus + 3 and n != 2 * av + 1:
                         continue
+                    if mode == 'none' and n > 64:
+                        continue        # get_pu_mask would read past the storage word of no_affinity_
                     if use:
                         maxc, used = rng.choice([n, nc, 1, 0, nc + 3]), rng.choice([0, 0, 1, 3])
                     else:
@@ -143,6 +150,59 @@ def gen_cases(rng, synth, model, tr, tag, budget_div):
     return cases
 
 
+def gen_cmd(rng, model, tr, tag, budget_div):
+    """C15t: command-line layer (harness/e0/affinity_cmd.cpp): --pika:threads x --pika:cores x
+    --pika:ignore-process-mask x --pika:bind x process mask, one synthetic machine"""
+    socks, cores = model_shape(model)
+    nc, npus = len(cores), sum(cores)
+    base = [sum(cores[:c]) for c in range(nc)]
+    masks = ['all']
+    if npus > 1:
+        sub = sorted(set(rng.below(npus) for _ in range(1 + rng.below(npus))))
+        masks.append('.'.join(map(str, sub)))
+        masks.append('.'.join(str(base[c] + cores[c] - 1) for c in range(nc) if rng.below(3) != 0) or '0')
+    masks = list(dict.fromkeys(masks))
+    cases, i = [], 0
+    for mask in masks:
+        inmask = npus if mask == 'all' else len(mask.split('.'))
+        for use in (1, 0):
+            av = inmask if use else npus
+            thr_opts = ['-', 'cores', 'all', '1', str(av), str(av + 1), str(av + 1 + rng.below(4)), str(1 + rng.below(av)), '0']
+            if tr != 'thorough':
+                thr_opts = thr_opts[:6] + [thr_opts[6 + rng.below(3)]]
+            for thr in thr_opts:
+                for bind in MODES:
+                    if bind == 'none' and thr.isdigit() and int(thr) > 64:
+                        continue
+                    if bind == 'numa-balanced' and len(set(cores)) > 1:
+                        # cores of different sizes: numa-balanced often never returns (known finding, covered at
+                        # the decoder level); every such case costs the CPU-time limit
+                        if budget_div[0] <= 0 or rng.below(8) != 0:
+                            continue
+                        budget_div[0] -= 1
+                    r = rng.below(8)
+                    cs = '-'
+                    if r == 0:
+                        cs = 'all'
+                    elif r == 1:
+                        cs = str(nc + rng.below(3))
+                    elif r == 2:
+                        cs = str(1 + rng.below(max(1, nc)))       # may be below the thread count
+                    elif r == 3 and not use and bind == 'compact' and budget_div[0] > 0 and rng.below(4) == 0:
+                        cs = '0'                                  # --pika:cores=0: compact never returns (known finding)
+                        budget_div[0] -= 1
+                    n_eff = int(thr) if thr.isdigit() else (npus if not use else inmask)
+                    if cs.isdigit() and not use and bind in ('scatter', 'balanced') and sum(cores[:min(int(cs), nc)]) < min(n_eff, npus + 1) and n_eff <= npus:
+                        # start-up would never return (known finding): costs 1 s of CPU each
+                        if budget_div[0] <= 0:
+                            cs = '-'
+                        else:
+                            budget_div[0] -= 1
+                    cases.append(f'case {tag}m{i} kind=cmd topo={model} bind={bind} threads={thr} cores={cs} use={use} mask={mask}\nendcase')
+                    i += 1
+    return cases
+
+
 def gen_live(rng, count, tag):
     """live starts of the real runtime on this machine (all PUs the process may use)"""
     cpus = sorted(os.sched_getaffinity(0))
@@ -164,13 +224,18 @@ def gen_live(rng, count, tag):
         elif r == 1:
             thr, n = 'cores', avail            # no SMT assumed only for choosing pool ordinals
         elif r == 2 and bind != 'none':
-            thr, n = str(avail + 1), 0         # must be rejected
+            thr, n = str(avail + 1 + (rng.below(3) if rng.below(2) else 0)), 0         # must be rejected
+        elif r == 3 and bind == 'none' and mask == 'all' and rng.below(2) == 0:
+            # C15t: bind=none beyond the machine: no error, fewer workers than requested (known finding)
+            thr, n = str(len(cpus) + 1), len(cpus) + 1
         else:
             n = 1 + rng.below(avail)
             thr = str(n)
         cores = 0
         if not use and bind == 'compact' and n > 1 and rng.below(3) == 0:
             cores = 1 + rng.below(n - 1)       # --pika:cores below the thread count (known finding)
+        elif use and n > 1 and rng.below(4) == 0:
+            cores = 1 + rng.below(n)           # C15t: --pika:cores is overridden while the process mask is used
         pools = '-'
         if n > 1 and rng.below(2) == 0:
             np_ = 1 + rng.below(2)
@@ -199,12 +264,16 @@ def run_topology(hbin, synth, cases, tag):
         f.write('\n'.join(cases) + '\n')
     env = dict(os.environ)
     env.pop('HWLOC_XMLFILE', None)
+    full = synth
+    if synth.startswith('cmd:'):
+        synth = synth[4:]
+        hbin = hbin + '_cmd'
     if synth.startswith('asym:'):
         _, P, C, U, keep = synth.split(':')
         xml = os.path.join(work, f'{tag}.xml')
         mk = subprocess.run([os.path.join(BIN, 'e0_mkxml'), P, C, U, keep, xml], capture_output=True, text=True)
         if mk.returncode != 0:
-            return [{'id': c.split()[1], 'synth': synth, 'case': c, 'raw': '', 'verdict': f'case {c.split()[1]} reject 0 [mkxml failed: {mk.stderr[:100]}]', 'err': mk.stderr} for c in cases]
+            return [{'id': c.split()[1], 'synth': full, 'case': c, 'raw': '', 'verdict': f'case {c.split()[1]} reject 0 [mkxml failed: {mk.stderr[:100]}]', 'err': mk.stderr} for c in cases]
         env['HWLOC_XMLFILE'] = xml
         env.pop('HWLOC_SYNTHETIC', None)
     else:
@@ -234,7 +303,7 @@ def run_topology(hbin, synth, cases, tag):
     out = []
     for c in cases:
         cid = c.split()[1]
-        out.append({'id': cid, 'synth': synth, 'case': c, 'raw': raws.get(cid, ''),
+        out.append({'id': cid, 'synth': full, 'case': c, 'raw': raws.get(cid, ''),
                     'verdict': verd.get(cid, f'case {cid} reject 0 [no-output]'), 'err': h.stderr[-300:]})
     return out
 
@@ -289,6 +358,8 @@ def main():
         ok_h, hbin, hlog = compile_harness('e0_affinity', 'e0/affinity.cpp', 'hooks')
         if ok_h:
             ok_h, _, hlog = compile_harness('e0_affinity_live', 'e0/affinity_live.cpp', 'hooks')
+        if ok_h:
+            ok_h, _, hlog = compile_harness('e0_affinity_cmd', 'e0/affinity_cmd.cpp', 'hooks')
     if ok_p and ok_h:
         mk = sh(f'gcc -O1 {os.path.join(HERE, "harness", "e0", "mkxml.c")} -lhwloc -o {os.path.join(BIN, "e0_mkxml")}')
         if mk.returncode != 0:
@@ -338,6 +409,11 @@ def main():
         budget_div = [40 if tr == 'thorough' else 6]
         for ti, (synth, model) in enumerate(chosen):
             jobs.append((synth, gen_cases(rng, synth, model, tr, f's{base_seed}g{ti}', budget_div), f'g{ti}'))
+        # C15t: command-line layer on a subset of the machines (all of them in the thorough tier)
+        cmd_t = chosen if tr == 'thorough' else [chosen[i] for i in sorted(set([0, 1, 2, 3] + [32, 33] + list(range(len(chosen) - 10, len(chosen)))) ) if i < len(chosen)]
+        budget_cmd = [30 if tr == 'thorough' else 4]
+        for ti, (synth, model) in enumerate(cmd_t):
+            jobs.append(('cmd:' + synth, gen_cmd(rng, model, tr, f's{base_seed}c{ti}', budget_cmd), f'c{ti}'))
         nlive = 400 if tr == 'thorough' else 40
         for li in range(4):
             jobs.append(('live', gen_live(rng, nlive // 4, f's{base_seed}L{li}'), f'L{li}'))
